@@ -397,6 +397,7 @@ func CheckMain(prop, tier string) int {
 
 	exit := 0
 	nViol := 0
+	unreproduced := 0 // observed by a worker, not reproduced by replays, library has goroutines of its own
 	var replayPaths []string
 	for _, p := range regress {
 		fmt.Printf("VIOLATION property=%s replay=%s\n", prop, p)
@@ -454,6 +455,32 @@ func CheckMain(prop, tier string) int {
 		if cmd.ProcessState != nil {
 			code = cmd.ProcessState.ExitCode()
 		}
+		if nGo, _ := strconv.Atoi(os.Getenv("SIM_LIB_GOSTMTS")); nGo > 0 && (code != 1 || !strings.Contains(string(outb), "["+mv.Oracle+"]")) {
+			// The library starts goroutines of its own, which the simulator neither schedules
+			// nor can replay: how far they get is decided by the Go runtime. The violation was
+			// observed on real code; the replay is repeated (it is a sample of that race).
+			for attempt := 2; attempt <= 20; attempt++ {
+				rc := exec.Command(self, "replay", prop, path)
+				rc.Env = cmd.Env
+				if attempt%2 == 0 {
+					rc.Env = append(append([]string{}, cmd.Env...), "GOMAXPROCS=1") // another sample of the runtime's scheduling
+				}
+				ob, _ := rc.CombinedOutput()
+				if rc.ProcessState != nil && rc.ProcessState.ExitCode() == 1 && strings.Contains(string(ob), "["+mv.Oracle+"]") {
+					code, outb = 1, ob
+					fmt.Printf("note: the library contains %d go statement(s); goroutines it starts are outside the simulator's control, so this replay is not exact: it reproduced in attempt %d\n", nGo, attempt)
+					break
+				}
+			}
+		}
+		if nGo, _ := strconv.Atoi(os.Getenv("SIM_LIB_GOSTMTS")); nGo > 0 && (code != 1 || !strings.Contains(string(outb), "["+mv.Oracle+"]")) {
+			// still not reproduced: a race between the library's own goroutines that the replay
+			// did not hit again. Not reported on its own (no exact replay); if no other violation
+			// of this run reproduces, the check ends as inconclusive (exit 2).
+			fmt.Printf("note: a worker observed %s, which 20 replays did not reproduce (the library starts goroutines of its own); not reported\n", mv)
+			unreproduced++
+			continue
+		}
 		if code != 1 || !strings.Contains(string(outb), "["+mv.Oracle+"]") {
 			// The scenario alone does not fail in a fresh process. If the worker's run sequence
 			// up to it does, the library keeps state across runs (package-level): that is a real,
@@ -502,6 +529,10 @@ func CheckMain(prop, tier string) int {
 		return 2
 	}
 	fmt.Printf("%s %s: %d runs, %d distinct non-trivial, %d violations, %.1fs\n", prop, tier, runs, len(total.Nontrivial), nViol, time.Since(t0).Seconds())
+	if exit == 0 && unreproduced > 0 {
+		fmt.Fprintf(os.Stderr, "inconclusive: %d violation(s) observed by workers could not be replayed (goroutines started by the library are outside the simulator's control)\n", unreproduced)
+		return 2
+	}
 	return exit
 }
 
